@@ -315,6 +315,7 @@ func main() {
 			line, err := in.ReadString('\n')
 			if len(line) > 0 {
 				fmt.Fprintln(out, otfHandle(k, all, strings.TrimRight(line, "\r\n")))
+				out.Flush() // answers computed before a crash must not be lost (crash isolation blames the right line)
 			}
 			if err != nil {
 				return
